@@ -7,6 +7,7 @@ import (
 	"os/exec"
 	"path/filepath"
 	"strings"
+	"time"
 )
 
 // goldsim — deterministic simulation harness for goldmark.
@@ -50,6 +51,19 @@ func main() {
 		cmdSelftest(os.Args[2:])
 	case "pristine":
 		cmdPristine(os.Args[2:])
+	case "timegen": // goldsim timegen <n>: conversion time of n genLong documents (inspection)
+		var n int
+		fmt.Sscan(os.Args[2], &n)
+		allOn := Config{GFM: true, DefList: true, Footnote: true, Typographer: true, CJK: "default", AutoID: true, Attribute: true}
+		for i := 0; i < n; i++ {
+			d := genLong(NewRng(uint64(i)))
+			t0 := time.Now()
+			out, _, _ := refCompute(allOn, d)
+			el := time.Since(t0)
+			if el > 5*time.Millisecond {
+				fmt.Printf("seed %d: %d bytes in, %d out, %v: %q\n", i, len(d), len(out), el, clipStr(d, 50))
+			}
+		}
 	case "gendoc": // goldsim gendoc <generator> <seed>: print one generated document (for inspection)
 		if len(os.Args) < 4 {
 			os.Exit(2)
